@@ -1,8 +1,13 @@
-(* C18 - No out-of-bounds access: the Coq part. The model reads with nth-with-default and writes with update functions that ignore an out-of-range index; every container operation has a checked twin in an option monad that fails on the first out-of-range index, is proved to compute the same result (erasure), and is proved to succeed under the container's invariant and the operation's precondition - so on in-contract histories every index the code computes is in range. Misalignment, indeterminate reads and allocation live in the C++ abstract machine and are decided by instrumented runs, not here. *)
+(* C18 - No out-of-bounds access: the Coq part. The model reads with nth-with-default and writes with update functions
+   that ignore an out-of-range index; every container operation has a checked twin in an option monad that fails on the
+   first out-of-range index, is proved to compute the same result (erasure), and is proved to succeed under the
+   container's invariant and the operation's precondition - so on in-contract histories every index the code computes
+   is in range. Misalignment, indeterminate reads and allocation live in the C++ abstract machine and are decided by
+   instrumented runs, not here. *)
 From Coq Require Import List Arith Bool NArith.
 From FFSM2 Require Import Model.TaskList Model.BitArray Model.BitStream Model.Plan Model.Ancestors Model.Machine
   Proofs.BitArrayProofs Proofs.MachineFrame Proofs.MachinePlan Proofs.MachineLife Proofs.GuardProofs Proofs.CycleProofs Proofs.PlanStep
-  Proofs.SerialProofs Proofs.LogProofs Proofs.MachineTop Model.Multi Generated.InitFacts Proofs.ConstructProofs Proofs.LifeMonitor Proofs.ActivationRounds Proofs.IndexSafety.
+  Proofs.SerialProofs Proofs.LogProofs Proofs.MachineTop Model.Multi Generated.InitFacts Proofs.ConstructProofs Proofs.LifeMonitor Proofs.ActivationRounds Proofs.IndexSafety Proofs.FeatureProofs.
 Import ListNotations.
 
 Theorem C18_tasklist_emplace :
